@@ -125,6 +125,16 @@ class Recorder:
     def _make(self, name):
         def h(event):
             a = event.assoc
+            if not getattr(a, "_vrec_first", False):
+                # pynetdicom's trigger() stops at the first notification handler that raises, and its own logging handlers (bound first)
+                # can raise on unusual but well-formed traffic (e.g. an A-ASSOCIATE-AC arriving at an acceptor): put the recorder first
+                a._vrec_first = True
+                try:
+                    for ev_, lst in a._handlers.items():
+                        if isinstance(lst, list):
+                            lst.sort(key=lambda t: 0 if getattr(t[0], "__name__", "").startswith("rec_") else 1)
+                except Exception:
+                    pass
             key = self.assocs.setdefault(id(a), (len(self.assocs), a))[0]
             detail = None
             if name == "EVT_FSM_TRANSITION":
